@@ -167,6 +167,8 @@ def run_replays(prop, files):
 
 def main(argv):
     faulthandler.enable()
+    if os.environ.get("VERIF_DUMP_AFTER"):  # debugging aid: periodic stack dumps of a worker that seems stuck
+        faulthandler.dump_traceback_later(int(os.environ["VERIF_DUMP_AFTER"]), repeat=True)
     mode = argv[1]
     if mode == "run":
         prop, subname, shard, nshards, tier, seed, outfile, armed = argv[2:10]
